@@ -136,8 +136,12 @@ def gen_dataset(prop: str, idx: int) -> dict:
                 for g in slot["kids"][opt]:
                     sp(g, c, gt, gt + 1000)
                     gt += 2000
-                # next slot starts before this one ends when parallel
-                t = st + (dur // 2 if slot["par"] else dur + 1000)
+                # next slot starts before this one ends when parallel; a
+                # parallel pair overlaps in most traces but not in all, so
+                # one workflow has traces with the same span names in the
+                # same order but different links under async sequencing
+                t = st + (dur // 2 if slot["par"] and rng.random() < 0.75
+                          else dur + 1000)
             traces.append({"id": tid, "wf": wf, "kind": "ok", "spans": spans})
     # ---- faults placed by the producer / transport --------------------
     faults = {"dangling_parent": 0, "lost_parent_span": 0,
